@@ -568,3 +568,71 @@ func (s *Sess) ConcreteBranch(b string) string {
 	}
 	return b
 }
+
+// BuildShape creates a repo whose DAG has the given parent structure (par[0] must be
+// empty: the root).  afterCreate(k) is called right after node k (1-based) exists and
+// before it is committed, so that the caller can write data there.  Nodes are
+// committed lazily, when first needed as a parent.  Single-parent nodes are created
+// with POST branch (fresh branch name), others with POST merge.
+func (s *Sess) BuildShape(par [][]int, afterCreate func(k int) error) error {
+	base := len(s.UUIDs)
+	locked := make([]bool, len(par))
+	for k := 1; k <= len(par); k++ {
+		ps := par[k-1]
+		for _, p := range ps {
+			if !locked[p-1] {
+				ok, st, err := s.Apply(Op{Op: "commit", Node: base + p})
+				if err != nil {
+					return err
+				}
+				if !ok {
+					return fmt.Errorf("commit of n%d refused (%d)", p, st)
+				}
+				locked[p-1] = true
+			}
+		}
+		var op Op
+		switch len(ps) {
+		case 0:
+			op = Op{Op: "newrepo", UUID: "auto"}
+		case 1:
+			op = Op{Op: "branch", Node: base + ps[0], Branch: fmt.Sprintf("b%d", k), UUID: "auto"}
+		default:
+			q := make([]int, len(ps))
+			for i, p := range ps {
+				q[i] = base + p
+			}
+			op = Op{Op: "merge", Parents: q}
+		}
+		ok, st, err := s.Apply(op)
+		if err != nil {
+			return err
+		}
+		if !ok {
+			return fmt.Errorf("creating n%d with %s refused (%d)", k, op.Key(), st)
+		}
+		if afterCreate != nil {
+			if err := afterCreate(k); err != nil {
+				return err
+			}
+		}
+	}
+	return nil
+}
+
+// NewInstance creates a data instance at the repo of node k.
+func (s *Sess) NewInstance(k int, typename, name string, extra map[string]string) error {
+	m := map[string]string{"typename": typename, "dataname": name}
+	for a, b := range extra {
+		m[a] = b
+	}
+	b, _ := json.Marshal(m)
+	r, err := s.HTTP("POST", "/api/repo/"+s.NodeUUID(k)+"/instance", b)
+	if err != nil {
+		return err
+	}
+	if r.Status != 200 {
+		return fmt.Errorf("new instance %s/%s: status %d %s", typename, name, r.Status, r.Bytes())
+	}
+	return nil
+}
